@@ -1073,7 +1073,7 @@ def c15(run):
     run.cov["rule"] = WIRE_RULE + ("C15: the outcome must be a value or an error - a panic, an abort or a hang is a violation; "
                                    "non-trivial = (input kind, entry point, mutation kind) classes exercised")
     gen_bloom(run)
-    wire_campaign(run, 1, 3)
+    wire_campaign(run, 1, 2)
     run.cov["explanation"] = "positions are sampled (all header positions + a seeded sample); the set of histories is sampled"
 
 
@@ -1082,7 +1082,7 @@ def c16(run):
                                    "reads of the projection and of recent historical heads succeed, save() loads back to an "
                                    "equal document with equal heads, an edit commits and reloads, merging with the unmutated "
                                    "original converges")
-    wire_campaign(run, 1, 3)
+    wire_campaign(run, 1, 2)
 
 
 def c17(run):
@@ -1090,13 +1090,13 @@ def c17(run):
                                    "allocation request above 64 MiB, 5 s; Bloom filter parameter vectors enumerated from "
                                    "Wire.tla are included")
     gen_bloom(run)
-    wire_campaign(run, 1, 3)
+    wire_campaign(run, 1, 2)
 
 
 def c39(run):
     run.cov["rule"] = WIRE_RULE + ("C39: every string handed out by an accepted document (map keys, string values, text, mark "
                                    "names and values, spans, change messages) must be valid UTF-8 (re-validated on the raw bytes)")
-    wire_campaign(run, 1, 3)
+    wire_campaign(run, 1, 2)
 
 
 def gen_bloom(run):
